@@ -33,12 +33,14 @@ COMMON_NOTE = ("Trusted: Lean 4.33 kernel (axioms audited per theorem: subset of
 
 PROPS["C03"] = dict(
     title="Name references follow every rename",
-    modules=["Kust.Props.C03", "Kust.Props.C03b"],
-    theorems=["Kust.C03.rename_records", "Kust.C03.storePrev_origName", "Kust.C03.rules_write_no_identity",
+    modules=["Kust.Props.C03", "Kust.Props.C03b", "Kust.Props.C03c"],
+    theorems=["Kust.C03.subset_mem", "Kust.C03.subject_account_candidate", "Kust.C03.same_namespace_candidate", "Kust.C03.other_namespace_excluded",
+              "Kust.C03.subset_sublist", "Kust.C03.cluster_referrer_sees_all",
+              "Kust.C03.rename_records", "Kust.C03.storePrev_origName", "Kust.C03.rules_write_no_identity",
               "Kust.C03.essential_rules_present", "Kust.Res.layers_no_panic", "Kust.Res.layers_good",
               "Kust.C03.unique_candidate_followed", "Kust.C03.no_candidate_untouched", "Kust.C03.picked_is_a_candidate",
               "Kust.C03.picked_bore_the_name"],
-    components=["res.layers", "nameref.select"],
+    components=["res.layers", "nameref.select", "resmap.subset"],
     oracle=True,
     n_corr={"quick": 3000, "thorough": 30000}, n_oracle={"quick": 600, "thorough": 6000},
     technique="Lean 4 proof (previous-id bookkeeping invariant over any layer chain; the referent selection selectReferral: a unique bearer of the written name is followed whatever the prefix/suffix contexts, whatever is picked bore the name and has the rule's kind; decide over the regenerated rule table) + Go/Lean correspondence of the renaming plugins and of nameref.Filter's selection on candidates with arbitrary rename histories + reference-edge oracle on whole builds (chains and sibling sub-trees)",
